@@ -3,6 +3,10 @@ EXTENDS Hostile
 AllFormats == {"delimited", "fixed", "excel", "ods"}
 AllClasses == {"unterminatedQuote", "strayOperator", "hugeNumber", "negative", "nonAscii", "nan", "infinity", "empty", "blank", "nul",
                "backslash", "badRegex", "lineBreak", "longText", "code", "brackets", "percent", "ellipsisOnly", "commaOnly", "hexLike",
-               "exponent", "quoteOnly", "unicodeEscape", "keyword"}
+               "exponent", "quoteOnly", "unicodeEscape", "keyword",
+               \* values that are hostile to one particular consumer: range parser, character parser, property lookup, int <-> str
+               \* conversion, regular expression compiler, tokenizer, codec lookup, date layout translation
+               "openRanges", "stringPrefix", "beyondUnicode", "internalName", "hugeDigits", "hugeRepetition", "indentedLines",
+               "codecName", "repeatedPlaceholder"}
 FewClasses == {"unterminatedQuote", "hugeNumber", "nan", "commaOnly", "badRegex", "nul", "strayOperator", "nonAscii"}
 =============================================================================
